@@ -306,6 +306,9 @@ func searchMode(t *testing.T, def *PropDef, known map[string]string, out *Worker
 		b, _ := json.MarshalIndent(lastFail, "", " ")
 		os.WriteFile(path, b, 0o644)
 		out.ReplayFile = path
+	} else if !ok && os.Getenv("VERIF_RACELOG") != "" {
+		// race-detector build: package testing fails the test for any report,
+		// also for those about the harness's own memory, which are not judged
 	} else if !ok {
 		out.Infra = append(out.Infra, "rapid failed without a recorded violation (panic in generator or harness)")
 	}
